@@ -68,7 +68,8 @@ fn corelib_test_outcomes(cfg: &Cfg) -> Result<BTreeMap<String, String>, String> 
             runner.run_function_with_starknet_context(func, vec![], test.available_gas, StarknetState::default()).map(|r| r.value).map_err(|e| format!("{e}"))
         });
         let s = match r {
-            Ok(Ok(v @ RunResultValue::Success(_))) => format!("ok {}", value_json(&v)),
+            // (a test may return a value, e.g. a dictionary: such results hold addresses and are not compared)
+            Ok(Ok(RunResultValue::Success(_))) => "ok".to_string(),
             Ok(Ok(v @ RunResultValue::Panic(_))) => format!("panic {}", value_json(&v)),
             Ok(Err(e)) => format!("error {}", e.chars().take(120).collect::<String>()),
             Err((loc, msg)) => format!("runner-panic {loc}: {}", msg.chars().take(80).collect::<String>()),
